@@ -92,6 +92,9 @@ func replay(path string) {
 			return fmt.Sprintf("argcheck|%s|%s", ba.Type, ba.Bound), text
 		}
 		text := fmt.Sprintf("  history %v then %s (%s)\n  first diverging item after call %d: %s\n    generated C : %s\n    Wuffs source: %s\n", w.History, w.Call.String(), cfg.Name, div.Call, div.Label, div.C, div.Interp)
+		if div.Problem != "" {
+			text += "  the C driver did not finish the history: " + strings.ReplaceAll(div.Problem, "\n", "\n    ") + "\n"
+		}
 		return signature(pi, div.Label), text
 	}
 	s1, t1 := run()
